@@ -4,6 +4,7 @@ package props
 
 import (
 	"fmt"
+	"os"
 	"testing"
 
 	"go.flow.arcalot.io/engine/internal/verif/vcase"
@@ -82,12 +83,33 @@ func tameNever(c *vcase.Case) (m *vcase.Model, changed int, k14 bool) {
 	}
 }
 
+// shortClosure gives every plugin step a closure timeout of 300 ms. A cancel signal that reaches
+// the plugin-side SDK before the step has registered itself there is dropped (plugin-side code, out
+// of the engine's hands); the engine then waits for the step's closure timeout - 5 s by default -
+// before it force-closes it. With short timeouts that wait stays far below the promptness bound.
+func shortClosure(c *vcase.Case) {
+	progs := []*vcase.Program{c.Main}
+	for _, p := range c.Subs {
+		progs = append(progs, p)
+	}
+	for _, p := range progs {
+		for _, s := range p.Steps {
+			if (s.Kind == "plugin" || s.Kind == "") && s.ClosureTimeoutMs == nil {
+				s.ClosureTimeoutMs = vcase.LitVal(vcase.IntLit(300))
+			}
+		}
+	}
+}
+
 func TestC01(t *testing.T) {
 	p := liveProfile()
 	runProperty(t, "C01",
 		func(rt *rapid.T) *vcase.Case {
 			c := vcase.GenCase(rt, p, "C01")
 			c.WatchdogMs = 10000
+			if os.Getenv("VERIF_C01_DEFAULT_CLOSURE") == "" {
+				shortClosure(c)
+			}
 			return c
 		},
 		func(st *Stats, c *vcase.Case) string {
@@ -183,7 +205,16 @@ func TestC01(t *testing.T) {
 					}
 				}
 				if d := ans.TReturnUs - last; d > 3_000_000 {
-					return fmt.Sprintf("no output producible, but the run returned only %d ms after the last step event", d/1000)
+					trace := ""
+					n := 0
+					for i := len(ans.Log) - 1; i >= 0 && n < 40; i-- {
+						e := ans.Log[i]
+						if e.Phase == "run" {
+							trace = fmt.Sprintf(" %d:%s(%s)@%dus", e.Seq, e.Kind, e.Key, e.TUs) + trace
+							n++
+						}
+					}
+					return fmt.Sprintf("no output producible, but the run returned only %d ms after the last step event (returned at %dus: %s); last events:%s", d/1000, ans.TReturnUs, short(ret.Err, 200), trace)
 				}
 			}
 			return ""
